@@ -895,7 +895,7 @@ def compute_average_cell_count(x, normalize):
 
         - If a list or jax.numpy.ndarray, returns the average of the list or array.
 
-        - If a dict, returns the average of the dict values.
+        - If a dict, returns the average of the dict values of the time points in `x`.
 
     Returns
     -------
@@ -910,12 +910,14 @@ def compute_average_cell_count(x, normalize):
     n_cells = x.shape[0]
     unique_times = unique(x[:, -1])
     n_unique_times = unique_times.shape[0]
+    validate_normalize_parameter(normalize, unique_times)
 
     if normalize is None or isinstance(normalize, bool):
         return n_cells / n_unique_times
 
     if isinstance(normalize, dict):
-        return sum(normalize.values()) / n_unique_times
+        # only the targets of the time points present in x (the dict may cover more)
+        return sum(normalize[t.item()] for t in unique_times) / n_unique_times
 
     if isinstance(normalize, (list, tuple, ndarray)) or hasattr(normalize, "__array__"):
         # lists, tuples, JAX and NumPy arrays: the same forms _get_target_cell_count indexes
